@@ -5,7 +5,7 @@ from core import nats, natlists, exc_kind, safe_check
 import dbutil
 
 PROPS = ('GambitV.Props.C19', 'GambitV.C19')
-TIE = []
+TIE = [('GambitV.Tie.PyHdf5', 'GambitV.Tie.Py')]
 RULE = ('(collection, write path in {whole-array, per-signature}, payload size, kill point n). The real writer runs in a forked child that is '
         'terminated with os._exit immediately before its n-th storage-library call (h5py File(), attribute write, create_dataset, dataset write, '
         'close); the parent then runs the real loader on the file left behind. Every n in 0..len(trace) for small payloads; for multi-megabyte '
@@ -197,6 +197,10 @@ def run(ctx):
 
 	payloads = [(3, 4, 5), (7, 20, 6), (1, 0, 5)]
 	big = [(60, 40000, 11), (200, 6000, 12), (1500, 30, 8), (40, 100000, 16)]    # multi-megabyte values; > 1024 signatures; > 2^20 values (u8)
+	if ctx.tier == 'thorough' or ctx.tie_broken:
+		# tens of megabytes written signature by signature (search for a failing input when the writer's storage trace no longer matches
+		# the model: buffer- or size-triggered flushes only show beyond their threshold)
+		big.append((48, 120000, 20))
 	for fast, comp in ((True, None), (False, None), (False, 'gzip'), (True, 'lzf')):
 		for (nsigs, siglen, k) in payloads + big:
 			if comp and (nsigs, siglen, k) in payloads[1:]:
